@@ -10,7 +10,7 @@ from hszinc.sortabledict import SortableDict
 from hszinc.metadata import MetadataObject
 
 OBS = '@OBS@'          # 'list' (C14) or 'id' (C15)
-MAXN = @MAXN@
+MAXN = 3
 
 def conc(x, lo, hi):
     for d in range(lo, hi + 1):
@@ -132,15 +132,22 @@ def observe_ids(g, m):
 def observe(g, m):
     return observe_list(g, m) if OBS == 'list' else observe_ids(g, m)
 
+def header_of(g):
+    return (str(g.version), list(g.metadata.items()), [(k, list(v.items())) for k, v in g.column.items()])
+
 def unchanged(g, m0):
     return same_rows(g._row, m0)
 
 def step(g, m, impl, model, m0, single=True):
     """run one operation on grid and list model; same exception class; refused single-row operation changes nothing"""
+    h0 = header_of(g)
     r1 = outcome(impl)
     r2 = outcome(model)
     if r1[0] != r2[0]:
         return False
+    h1 = header_of(g)
+    if h1[1:] != h0[1:] or (h1[0] != h0[0] and h0[0] == '3.0' and 'lst' in g.metadata):
+        return False          # a row operation leaves metadata and columns alone, and the version while 3.0-only data is still in the header
     if r1[0] == 'raises':
         if r1[1] != r2[1]:
             return False
@@ -160,18 +167,20 @@ MK = 'g, m = build(n, (r0, r1, r2), (10, 11, 12), how); m0 = list(m)'
 def gen(maxn, nkind):
     H = []
 
-    def add(name, extra_sig, extra_pre, body, what, timeout=60, split=None):
+    def add(name, extra_sig, extra_pre, body, what, timeout=60, split=None, upto=None):
         if split:
             for tag, cond in split:
                 add('%s_%s' % (name, tag), extra_sig, (extra_pre + ' and ' if extra_pre else '') + cond, body, what + ' [%s]' % cond, timeout)
             return
-        for j in range(maxn + 1):
+        for j in range(max(maxn, upto or 0) + 1):
             src = 'def %s_n%d(%s%s) -> bool:\n    """\n    pre: %s and n == %d%s\n    post: _\n    """\n    %s\n%s\n' % (
                 name, j, SIG, (', ' + extra_sig) if extra_sig else '', PRE, j, (' and ' + extra_pre) if extra_pre else '',
                 MK, '\n'.join('    ' + l for l in body.strip('\n').split('\n')))
             H.append(xhair.Harness('%s_n%d' % (name, j), src, timeout=timeout, what=what + ' [grid of %d rows]' % j))
 
     IDX = '-MAXN - 1 <= i <= MAXN + 1'
+    # version given / default / auto-upgraded through metadata or through a row that is gone again: deleting operations keep it
+    VC = 'g, m = build(n, (r0, r1, r2), (10, 11, 12), how, vcfg); m0 = list(m); v0 = str(g.version)\n'
     add('observe_only', 'vcfg: int', '0 <= vcfg <= 4',
         'g, m = build(n, (r0, r1, r2), (10, 11, 12), how, vcfg); m0 = list(m)\n'
         'want = ["3.0", "2.0", "2.0", "3.0", "3.0"][vcfg]\n'
@@ -183,13 +192,13 @@ def gen(maxn, nkind):
     add('setitem', 'i: int, rk: int', IDX + ' and 0 <= rk < NKIND',
         'row = mkrow(rk, 7)\nreturn step(g, m, lambda: g.__setitem__(i, row), lambda: m.__setitem__(i, row), m0)', 'g[i] = row')
     add('delitem', 'i: int', IDX,
-        'return step(g, m, lambda: g.__delitem__(i), lambda: m.__delitem__(i), m0)', 'del g[i]')
-    add('delslice', 'a: int, b: int, an: bool, bn: bool, st: int', '-2 <= a <= MAXN and -2 <= b <= MAXN and 0 <= st <= 4',
-        'sl = slice(None if an else conc(a, -2, MAXN), None if bn else conc(b, -2, MAXN), [None, 1, 2, -1, -2][conc(st, 0, 4)])\n'
+        'return step(g, m, lambda: g.__delitem__(i), lambda: m.__delitem__(i), m0)', 'del g[i]', upto=3)
+    add('delslice', 'a: int, b: int, an: bool, bn: bool, st: int, vcfg: int', '-2 <= a <= MAXN and -2 <= b <= MAXN and 0 <= st <= 4 and 0 <= vcfg <= 4',
+        VC + 'sl = slice(None if an else conc(a, -2, MAXN), None if bn else conc(b, -2, MAXN), [None, 1, 2, -1, -2][conc(st, 0, 4)])\n'
         'return step(g, m, lambda: g.__delitem__(sl), lambda: m.__delitem__(sl), m0, single=False)', 'del g[a:b:step] (bounds present or omitted, step None / 1 / 2 / -1 / -2)')
-    add('pop', 'i: int, noarg: bool', IDX,
-        'if noarg:\n    return step(g, m, lambda: g.pop(), lambda: m.pop(), m0)\n'
-        'return step(g, m, lambda: g.pop(i), lambda: m.pop(i), m0)', 'pop() / pop(i)')
+    add('pop', 'i: int, noarg: bool, vcfg: int', IDX + ' and 0 <= vcfg <= 4 and (n <= 2 or vcfg == 0) and (not noarg or i == 0)',
+        VC + 'if noarg:\n    return step(g, m, lambda: g.pop(), lambda: m.pop(), m0)\n'
+        'return step(g, m, lambda: g.pop(i), lambda: m.pop(i), m0)', 'pop() / pop(i)', upto=3)
     add('remove', 'j: int, rk: int', '0 <= j <= MAXN and 0 <= rk < NKIND',
         'row = m[j] if j < len(m) else mkrow(rk, 99)\n'
         'def mrem():\n    for t in range(len(m)):\n        if m[t] is row or m[t] == row:\n            del m[t]\n            return None\n    raise ValueError()\n'
@@ -199,8 +208,8 @@ def gen(maxn, nkind):
         'if iadd:\n    def f():\n        gg = g\n        gg += rows\n        return None if gg is g else "rebound"\n'
         '    return step(g, m, f, lambda: m.extend(rows), m0, single=False)\n'
         'return step(g, m, lambda: g.extend(rows), lambda: m.extend(rows), m0, single=False)', 'extend(rows) / g += rows')
-    add('reverse_clear', 'clear: bool', '',
-        'if clear:\n    return step(g, m, lambda: g.clear(), lambda: m.clear(), m0, single=False)\n'
+    add('reverse_clear', 'clear: bool, vcfg: int', '0 <= vcfg <= 4',
+        VC + 'if clear:\n    return step(g, m, lambda: g.clear(), lambda: m.clear(), m0, single=False)\n'
         'return step(g, m, lambda: g.reverse(), lambda: m.reverse(), m0, single=False)', 'reverse() / clear()')
     add('nondict', 'op: int, i: int, bad: int', '0 <= op <= 3 and -1 <= i <= MAXN and 0 <= bad <= 5',
         'junk = [None, [("id", "x")], "row", SortableDict([("id", "x")]), MetadataObject([("id", "q")]), 7][conc(bad, 0, 5)]\n'
@@ -236,7 +245,7 @@ def gen(maxn, nkind):
 def run_obs(chk, obs):
     quick = chk.tier == 'quick'
     maxn, nkind = (2, 5) if quick else (3, 7)
-    chk.bounds = dict(rows_in_pre_state='0..%d' % maxn, row_kinds=['no id', "id 'x'", 'id 1 (int)', "id Ref('x')", 'id 0', "id '1'", "id ''"][:nkind],
+    chk.bounds = dict(rows_in_pre_state='0..%d (pop and del g[i]: 0..3 in every tier)' % maxn, row_kinds=['no id', "id 'x'", 'id 1 (int)', "id Ref('x')", 'id 0', "id '1'", "id ''"][:nkind],
                       indices='-(max+1)..(max+1)', index_state='never built (fresh grid / slice) or built',
                       history='one operation from an arbitrary state; two-step family (insert then delete/replace/slice-op); derived-grid family (slice or filter result, then mutate parent or derived grid, observe both)')
     chk.assumptions = ['pre-state: rows are placed directly in Grid._row and the id index is None or reindex()ed - the states reachable by histories of inserts/slices',
@@ -251,7 +260,7 @@ def run_obs(chk, obs):
     if not quick:
         for x in hs:
             x.timeout *= 8
-    pre = PRELUDE.replace('@OBS@', obs).replace('@MAXN@', str(maxn)).replace('@NKIND@', str(nkind))
+    pre = PRELUDE.replace('@OBS@', obs).replace('@NKIND@', str(nkind))
     symrun.run_harnesses(chk, pre, hs)
     return chk.finish(rule='one symx exploration per (operation, pre-state size): native execution of the real Grid code, every branch on a symbolic value decided by z3, exhaustive work list; pre-state rows, index state and all arguments symbolic; '
                            'grid and list model run in lock step and are compared through the public observations; non-trivial = non-vacuous '
